@@ -21,7 +21,7 @@ class C15(Check):
     rule = ('case = item list (empty items, empty list, items containing the other framing\'s bytes) framed by the real frame() (line framing; '
             'length-prefix framing with prefix size 1/2/4/8 and both byte orders); the concatenation is cut by a seeded schedule (inside a prefix, '
             'between prefix and payload, at every newline +-1, empty segments, 1-unit segments, all-in-one) and, for streams <= 300 units, *every* '
-            'single cut position and every truncation offset is swept as well; fed chunk by chunk through a Subject into the real unframe(). '
+            'single cut position and every truncation offset is swept as well; fed chunk by chunk through a Subject into the real unframe(); also several streams through their own operator instances at the same time, a framed stream tunnelled inside another, and (1 case in 500 / 100) one stream of 2-13 MiB in fixed-size chunks through one subscription. '
             'oracle: items equal and in order; after truncation + completion: line -> complete lines plus the unterminated rest if non-empty, '
             'length-prefix -> exactly the frames fully contained. non-trivial: >= 2 items and >= 1 cut strictly inside the stream; '
             'distinct = distinct (items, configuration, schedule)')
